@@ -611,6 +611,15 @@ impl RandomDirector {
                 let plen = self.rng.gen_range(0..=self.p.payload_max);
                 let mut payload: Vec<u8> = format!("m{n}:").into_bytes();
                 payload.extend((0..plen).map(|_| self.rng.r#gen::<u8>()));
+                // payloads that begin with zero bytes (or are empty): whatever is misread as a
+                // length, an identifier or a flag byte reads as zero then
+                if self.chance(0.12) {
+                    let mut z = vec![0u8, 0u8];
+                    z.extend_from_slice(&payload);
+                    payload = z;
+                } else if self.chance(0.05) {
+                    payload.clear();
+                }
                 let mut props = self.gen_props("publish");
                 let corr = if self.chance(0.15) {
                     props.retain(|p| p.id != 0x09);
